@@ -922,3 +922,627 @@ theorem Shape_S_eq (s : List Int) (slices : List GoSlice) :
           have := len_nonneg xs; omega
         simp [this, clsE]
 end TM.Gen
+
+namespace TM.Gen
+open TM
+set_option linter.unusedSimpArgs false
+
+/-! ### `AP.S` -/
+
+/-- the data-order flag set as the model's three booleans -/
+def ordOf (o : GoOrder) : Order :=
+  { col := gand o 1 != 0, nonContig := gand o 2 != 0, transposed := gand o 4 != 0 }
+
+/-- the Go struct as the model's access pattern (the `Triangle` field is not modelled) -/
+def toM (g : GoAP) : AP := { shape := g.shape, strides := g.strides, fin := g.fin, o := ordOf g.o }
+
+def addNC (o : GoOrder) : GoOrder := gor (gor 0 o) 2
+
+theorem flags_cases (o : Int) (h : 0 ≤ o ∧ o < 8) :
+    o = 0 ∨ o = 1 ∨ o = 2 ∨ o = 3 ∨ o = 4 ∨ o = 5 ∨ o = 6 ∨ o = 7 := by omega
+
+theorem addNC_range (o : Int) (h : 0 ≤ o ∧ o < 8) : 0 ≤ addNC o ∧ addNC o < 8 := by
+  rcases flags_cases o h with h | h | h | h | h | h | h | h <;> subst h <;> decide
+
+theorem addNC_idem (o : Int) (h : 0 ≤ o ∧ o < 8) : addNC (addNC o) = addNC o := by
+  rcases flags_cases o h with h | h | h | h | h | h | h | h <;> subst h <;> decide
+
+theorem ordOf_addNC (o : Int) (h : 0 ≤ o ∧ o < 8) : ordOf (addNC o) = { ordOf o with nonContig := true } := by
+  rcases flags_cases o h with h | h | h | h | h | h | h | h <;> subst h <;> decide
+
+theorem MakeDataOrder_pair (o : GoOrder) : MakeDataOrder [o, (2 : GoOrder)] = .ok (addNC o) := by
+  simp [MakeDataOrder, MakeDataOrder_loop1, len, addNC, bind, Except.bind, pure, Except.pure]
+
+theorem IsRowMajor_eq (o : GoOrder) : DataOrder_IsRowMajor o = .ok (!(ordOf o).col) := by
+  simp [DataOrder_IsRowMajor, DataOrder_IsColMajor, ordOf, bind, Except.bind, pure, Except.pure]
+
+theorem AP_IsVector_eq (g : GoAP) : AP_IsVector g = .ok (isVector g.shape) := by
+  simp [AP_IsVector, Shape_IsVector_eq, bind, Except.bind, pure, Except.pure]
+
+theorem scalarAP_eq : (do
+    let a ← AP_SetShape ({} : GoAP) []
+    AP_lock a : GoM GoAP) = .ok { shape := [], strides := [], fin := true, o := 0, tri := 0 } := by
+  simp [AP_SetShape, AP_lock, len, gslice, bind, Except.bind, pure, Except.pure]
+end TM.Gen
+namespace TM.Gen
+open TM
+set_option linter.unusedSimpArgs false
+set_option maxHeartbeats 1000000
+
+theorem gmod_ne (a b : Int) (h : b ≠ 0) : gmod a b = .ok (Int.tmod a b) := by
+  unfold gmod; simp [h, pure, Except.pure]
+
+theorem sumI_cons (x : Int) (xs : List Int) : sumI (x :: xs) = x + sumI xs := rfl
+
+/-- value `AP.S` writes into `newShape[i]`, as a function of the tests the code makes -/
+def axisNB (cpos modpos ipos q1 q2 : Bool) (tdiv diff : Int) : Int :=
+  if cpos then (if modpos && ipos then (if q1 then 1 else tdiv + 1) else (if q2 then 1 else tdiv)) else diff
+def axisStB (cpos : Bool) (stride c : Int) : Int := if cpos then stride * c else stride
+def axisNCB (given isVec ne gt1 : Bool) : Bool := if given then ((!isVec && ne) || gt1) else gt1
+
+/-- the same in terms of the axis data -/
+def axisN (i : Nat) (a b c : Int) : Int :=
+  axisNB (decide (c > 0)) (decide ((b - a).tmod c > 0)) (decide ((i : Int) > 0)) (decide ((b - a).tdiv c + 1 ≤ 0))
+    (decide ((b - a).tdiv c ≤ 0)) ((b - a).tdiv c) (b - a)
+def axisSt (stride c : Int) : Int := axisStB (decide (c > 0)) stride c
+def axisNC (isVec : Bool) (od i : Nat) (given : Bool) (c : Int) : Bool :=
+  axisNCB given isVec ((i : Int) != (od : Int)) (decide (c > 1))
+
+theorem sliceAxis_ok (isVec : Bool) (od i : Nat) (size stride : Int) (sl : Option Sl) (a b c : Int)
+    (h : sliceDetails sl size = .ok (a, b, c)) :
+    sliceAxis isVec od i size stride sl = .ok (AxisRes.mk (axisN i a b c) (axisSt stride c) (a * stride)
+      ((size - b) * stride) (axisNC isVec od i sl.isSome c)) := by
+  unfold sliceAxis axisN axisSt axisNC axisNB axisStB axisNCB goDiv goMod
+  simp only [h, bind, Except.bind, pure, Except.pure]
+  have hkod : ((i : Int) != (od : Int)) = (i != od) := by
+    by_cases h : i = od
+    · subst h; simp
+    · have : ¬ ((i : Int) = (od : Int)) := by omega
+      have h1 : (i != od) = true := by simpa using h
+      have h2 : ((i : Int) != (od : Int)) = true := by simpa using this
+      rw [h1, h2]
+  have hi0 : decide ((i : Int) > 0) = decide (i > 0) := by simp
+  rw [hkod, hi0]
+  by_cases hc : c > 0
+  · have hc1 : True := trivial
+    by_cases hm : (b - a).tmod c > 0 <;> by_cases hi : i > 0 <;> by_cases hq1 : (b - a).tdiv c + 1 ≤ 0 <;>
+      by_cases hq2 : (b - a).tdiv c ≤ 0 <;> cases sl.isSome <;> cases isVec <;> (first | rfl | simp [hc, hm, hi, hq1, hq2] | (simp [hc, hm, hi, hq1, hq2]; omega))
+  · have hc1 : ¬ (c > 1) := by omega
+    cases sl.isSome <;> cases isVec <;> (first | rfl | simp [hc, hc1])
+
+/-- one iteration of the per-axis loop of `AP.S` on an axis whose slice is accepted -/
+theorem APS_body (g : GoAP) (dims : Int) (newAP : GoAP) (od : Nat) (size : Int) (slices : List GoSlice)
+    (n k : Nat) (e s : Int) (nsh nst : List Int) (ord : Int) (a b c : Int)
+    (hk : k < g.shape.length) (hks : k < g.strides.length) (hnsh : k < nsh.length) (hnst : k < nst.length)
+    (hsd : SliceDetails ((slices.drop k).head?.join) g.shape[k] = .ok (a, b, c, none)) :
+    AP_S_loop1 g dims newAP (od : Int) size slices (upFrom (n + 1) (k : Int)) none e s nsh nst ord =
+      AP_S_loop1 g dims newAP (od : Int) size slices (upFrom n ((k : Int) + 1)) none
+        (e - (g.shape[k] - b) * g.strides[k]) (s + a * g.strides[k])
+        (nsh.set k (axisN k a b c)) (nst.set k (axisSt g.strides[k] c))
+        (if axisNC (isVector g.shape) od k ((slices.drop k).head?.join).isSome c then addNC ord else ord) := by
+  rw [upFrom_succ, AP_S_loop1]
+  have hsl : (if decide ((k : Int) ≤ len slices - 1) then gidx slices (k : Int) else (pure none : GoM GoSlice))
+      = .ok ((slices.drop k).head?.join) := by
+    by_cases hks : k < slices.length
+    · have : ((k : Int) ≤ len slices - 1) := by unfold len; omega
+      simp [this, gidx_lt slices k hks, List.head?_drop, List.getElem?_eq_getElem hks]
+    · have : ¬ ((k : Int) ≤ len slices - 1) := by unfold len; omega
+      have h2 : slices[k]? = none := List.getElem?_eq_none (by omega)
+      simp [this, List.head?_drop, h2, pure, Except.pure]
+  have hgs : gidx g.shape (k : Int) = .ok g.shape[k] := gidx_lt _ _ hk
+  have hgst : gidx g.strides (k : Int) = .ok g.strides[k] := gidx_lt _ _ hks
+  generalize hS : (slices.drop k).head?.join = sl0 at *
+  have g1 : ∀ v, gset nsh (k : Int) v = .ok (nsh.set k v) := fun v => gset_lt _ _ _ hnsh
+  have g2 : ∀ v, gidx (nsh.set k v) (k : Int) = .ok v := by
+    intro v; rw [gidx_lt _ k (by simp; omega)]; simp
+  have g3 : ∀ v w, gset (nsh.set k v) (k : Int) w = .ok (nsh.set k w) := by
+    intro v w; rw [gset_lt _ k _ (by simp; omega)]; simp
+  have g5 : ∀ v, gset nst (k : Int) v = .ok (nst.set k v) := fun v => gset_lt _ _ _ hnst
+  -- everything the body tests, as opaque booleans
+  unfold axisN axisSt axisNC
+  generalize hcp : decide (c > 0) = cpos
+  generalize hmp : decide ((b - a).tmod c > 0) = modpos
+  generalize hip : decide ((k : Int) > 0) = ipos
+  generalize hq1 : decide ((b - a).tdiv c + 1 ≤ 0) = q1
+  generalize hq2 : decide ((b - a).tdiv c ≤ 0) = q2
+  generalize hne : ((k : Int) != (od : Int)) = ne
+  generalize hg1 : decide (c > 1) = gt1
+  generalize hgv : sl0.isSome = given
+  generalize hiv : isVector g.shape = isVec
+  have hdiv : cpos = true → gdiv (b - a) c = .ok ((b - a).tdiv c) ∧ gmod (b - a) c = .ok ((b - a).tmod c) := by
+    intro h; rw [← hcp] at h
+    have hc0 : c ≠ 0 := by have := of_decide_eq_true h; omega
+    exact ⟨gdiv_ne _ _ hc0, gmod_ne _ _ hc0⟩
+  by_cases hle : decide ((k : Int) ≤ len slices - 1) = true
+  · simp only [hle, if_true] at hsl
+    simp only [hle, if_true, hsl, hgs, hgst, hsd, bind, Except.bind, pure, Except.pure, Option.isSome_none,
+      Bool.false_eq_true, if_false, AP_IsVector_eq, MakeDataOrder_pair, hcp, hgv, hiv, hne, hg1]
+    cases cpos
+    · cases given <;> cases isVec <;> cases ne <;> cases gt1 <;> simp [g1, g5, axisNB, axisStB, axisNCB]
+    · obtain ⟨hd, hm⟩ := hdiv rfl
+      simp only [hd, hm, g1, g2, g3, g5, hmp, hip, hq1, hq2, if_true]
+      cases modpos <;> cases ipos <;> cases q1 <;> cases q2 <;> cases given <;> cases isVec <;> cases ne <;> cases gt1 <;>
+        simp [g1, g2, g3, g5, axisNB, axisStB, axisNCB, hq1, hq2]
+  · simp only [hle, if_false, Bool.false_eq_true] at hsl
+    injection hsl with hsl
+    subst hsl
+    simp only [hle, if_false, Bool.false_eq_true, hgs, hgst, hsd, bind, Except.bind, pure, Except.pure, Option.isSome_none,
+      AP_IsVector_eq, MakeDataOrder_pair, hcp, hiv, hne, hg1]
+    simp only [Option.isSome_none] at hgv
+    subst hgv
+    cases cpos
+    · cases isVec <;> cases ne <;> cases gt1 <;> simp [g1, g5, axisNB, axisStB, axisNCB]
+    · obtain ⟨hd, hm⟩ := hdiv rfl
+      simp only [hd, hm, g1, g2, g3, g5, hmp, hip, hq1, hq2, if_true]
+      cases modpos <;> cases ipos <;> cases q1 <;> cases q2 <;> cases isVec <;> cases ne <;> cases gt1 <;>
+        simp [g1, g2, g3, g5, axisNB, axisStB, axisNCB, hq1, hq2]
+end TM.Gen
+namespace TM.Gen
+open TM
+set_option linter.unusedSimpArgs false
+
+def ordStep (nc : Bool) (ord : Int) : Int := if nc then addNC ord else ord
+
+theorem ordStep_range (nc : Bool) (ord : Int) (h : 0 ≤ ord ∧ ord < 8) : 0 ≤ ordStep nc ord ∧ ordStep nc ord < 8 := by
+  unfold ordStep; cases nc
+  · simpa using h
+  · simpa using addNC_range ord h
+
+theorem ordStep_comb (a b : Bool) (ord : Int) (h : 0 ≤ ord ∧ ord < 8) :
+    ordStep b (ordStep a ord) = ordStep (a || b) ord := by
+  unfold ordStep; cases a <;> cases b <;> simp [addNC_idem ord h]
+
+theorem set_take_succ (l : List Int) (k : Nat) (v : Int) (h : k < l.length) :
+    (l.set k v).take (k + 1) = l.take k ++ [v] := take_set_succ l k v h
+
+/-- the per-axis loop of `AP.S` against the model's `apSLoop` -/
+theorem APS_loop1 (g : GoAP) (dims : Int) (newAP : GoAP) (od : Nat) (size : Int) (slices : List GoSlice) :
+    ∀ (n k : Nat) (e s : Int) (nsh nst : List Int) (ord : Int),
+    k + n = g.shape.length → nsh.length = g.shape.length → nst.length = g.shape.length → (0 ≤ ord ∧ ord < 8) →
+    match apSLoop (isVector g.shape) od k (g.shape.drop k) (g.strides.drop k) (slices.drop k) with
+    | .ok rs => AP_S_loop1 g dims newAP (od : Int) size slices (upFrom n (k : Int)) none e s nsh nst ord =
+        .ok (Ctl.next (none, e - sumI (rs.map (·.dEnd)), s + sumI (rs.map (·.dStart)), nsh.take k ++ rs.map (·.n),
+          nst.take k ++ rs.map (·.stride), ordStep (rs.any (·.nonContig)) ord))
+    | .error (.err _) => ∃ a b c d, AP_S_loop1 g dims newAP (od : Int) size slices (upFrom n (k : Int)) none e s nsh nst ord =
+        .ok (Ctl.ret (a, b, c, some d))
+    | .error (.panic _) => ∃ m, AP_S_loop1 g dims newAP (od : Int) size slices (upFrom n (k : Int)) none e s nsh nst ord =
+        .error (.panic m) := by
+  intro n
+  induction n with
+  | zero =>
+    intro k e s nsh nst ord hk hnsh hnst hord
+    have h1 : g.shape.drop k = [] := List.drop_eq_nil_of_le (by omega)
+    have t1 : nsh.take k = nsh := List.take_of_length_le (by omega)
+    have t2 : nst.take k = nst := List.take_of_length_le (by omega)
+    simp [h1, apSLoop, upFrom, AP_S_loop1, sumI, t1, t2, ordStep, pure, Except.pure]
+  | succ n ih =>
+    intro k e s nsh nst ord hk hnsh hnst hord
+    have hlt : k < g.shape.length := by omega
+    have hd : g.shape.drop k = g.shape[k] :: g.shape.drop (k + 1) := List.drop_eq_getElem_cons hlt
+    rw [hd]
+    by_cases hks : k < g.strides.length
+    · have hds : g.strides.drop k = g.strides[k] :: g.strides.drop (k + 1) := List.drop_eq_getElem_cons hks
+      have htl : (slices.drop k).tail = slices.drop (k + 1) := by simp [List.tail_drop]
+      rw [hds]
+      simp only [apSLoop, htl]
+      obtain ⟨r, hr, hrel⟩ := SliceDetails_exact ((slices.drop k).head?.join) g.shape[k]
+      cases hsd : sliceDetails ((slices.drop k).head?.join) g.shape[k] with
+      | error er =>
+        rw [hsd] at hrel
+        have hax : sliceAxis (isVector g.shape) od k g.shape[k] g.strides[k] ((slices.drop k).head?.join) = .error er := by
+          unfold sliceAxis; rw [hsd]; rfl
+        simp only [hax, bind, Except.bind]
+        cases er with
+        | panic t => exact hrel.elim
+        | err t =>
+          obtain ⟨r1, r2, r3, r4⟩ := r
+          simp only at hrel
+          cases r4 with
+          | none => simp at hrel
+          | some ee =>
+            refine ⟨newAP, s, e, "err", ?_⟩
+            rw [upFrom_succ, AP_S_loop1]
+            by_cases hle : decide ((k : Int) ≤ len slices - 1) = true
+            · have hks2 : k < slices.length := by
+                have := of_decide_eq_true hle; unfold len at this; omega
+              simp [hle, gidx_lt slices k hks2, gidx_lt g.shape k hlt, gidx_lt g.strides k hks,
+                bind, Except.bind, pure, Except.pure]
+              have : (slices.drop k).head?.join = slices[k] := by simp [List.head?_drop, List.getElem?_eq_getElem hks2]
+              rw [this] at hr
+              simp [hr]
+            · have hks2 : ¬ k < slices.length := by
+                intro h; apply hle; apply decide_eq_true; unfold len; omega
+              have : (slices.drop k).head?.join = none := by
+                simp [List.head?_drop, List.getElem?_eq_none (by omega : slices.length ≤ k)]
+              rw [this] at hr
+              simp [hle, gidx_lt g.shape k hlt, gidx_lt g.strides k hks, hr, bind, Except.bind, pure, Except.pure]
+      | ok v =>
+        obtain ⟨a, b, c⟩ := v
+        rw [hsd] at hrel
+        simp only at hrel
+        subst hrel
+        rw [sliceAxis_ok _ _ _ _ _ _ a b c hsd]
+        simp only [bind, Except.bind]
+        rw [APS_body g dims newAP od size slices n k e s nsh nst ord a b c hlt hks (by omega) (by omega) hr]
+        have hord' := ordStep_range (axisNC (isVector g.shape) od k ((slices.drop k).head?.join).isSome c) ord hord
+        have ih' := ih (k + 1) (e - (g.shape[k] - b) * g.strides[k]) (s + a * g.strides[k])
+          (nsh.set k (axisN k a b c)) (nst.set k (axisSt g.strides[k] c))
+          (ordStep (axisNC (isVector g.shape) od k ((slices.drop k).head?.join).isSome c) ord)
+          (by omega) (by simp [hnsh]) (by simp [hnst]) hord'
+        simp only [Int.natCast_add, Int.cast_ofNat_Int] at ih'
+        cases hrest : apSLoop (isVector g.shape) od (k + 1) (g.shape.drop (k + 1)) (g.strides.drop (k + 1)) (slices.drop (k + 1)) with
+        | error er =>
+          rw [hrest] at ih'
+          cases er with
+          | err t => simpa [ordStep] using ih'
+          | panic t => simpa [ordStep] using ih'
+        | ok rs =>
+          rw [hrest] at ih'
+          simp only [pure, Except.pure]
+          have : (if axisNC (isVector g.shape) od k ((slices.drop k).head?.join).isSome c = true then addNC ord else ord) =
+              ordStep (axisNC (isVector g.shape) od k ((slices.drop k).head?.join).isSome c) ord := rfl
+          rw [this, ih', set_take_succ nsh k _ (by omega), set_take_succ nst k _ (by omega)]
+          simp only [List.map_cons, sumI_cons, List.any_cons, ordStep_comb _ _ ord hord, List.append_assoc,
+            List.singleton_append]
+          have e1 : e - (g.shape[k] - b) * g.strides[k] - sumI (List.map (fun x => x.dEnd) rs) =
+              e - ((g.shape[k] - b) * g.strides[k] + sumI (List.map (fun x => x.dEnd) rs)) := by omega
+          have e2 : s + a * g.strides[k] + sumI (List.map (fun x => x.dStart) rs) =
+              s + (a * g.strides[k] + sumI (List.map (fun x => x.dStart) rs)) := by omega
+          rw [e1, e2]
+    · have hds : g.strides.drop k = [] := List.drop_eq_nil_of_le (by omega)
+      rw [hds]
+      simp only [apSLoop, throwPanic]
+      refine ⟨"index out of range", ?_⟩
+      rw [upFrom_succ, AP_S_loop1]
+      have hgs : gidx g.shape (k : Int) = .ok g.shape[k] := gidx_lt _ _ hlt
+      have hgst : gidx g.strides (k : Int) = gpanic "index out of range" := by
+        rw [gidx_nat, List.getElem?_eq_none (by omega)]
+      by_cases hle : decide ((k : Int) ≤ len slices - 1) = true
+      · have hks2 : k < slices.length := by
+          have := of_decide_eq_true hle; unfold len at this; omega
+        simp [hle, gidx_lt slices k hks2, hgs, hgst, bind, Except.bind, pure, Except.pure, gpanic, throw, throwThe, MonadExceptOf.throw]
+      · simp [hle, hgs, hgst, bind, Except.bind, pure, Except.pure, gpanic, throw, throwThe, MonadExceptOf.throw]
+end TM.Gen
+namespace TM.Gen
+open TM
+set_option linter.unusedSimpArgs false
+
+/-- the dimension-dropping loop of `AP.S` on (extent, stride) pairs, in terms of original axis numbers -/
+def dropF2 (slices : List GoSlice) : Nat → List (Int × Int) → List (Int × Int)
+  | _, [] => []
+  | j, p :: r => if p.1 == 1 && (slices[j]?.join).isSome then dropF2 slices (j + 1) r else p :: dropF2 slices (j + 1) r
+
+def ctlRv2 : Ctl (GoAP × Int × Int × GoErr) (Int × Int × List Int × List Int × Int) → Option (List Int × List Int)
+  | Ctl.next s => some (s.2.2.1, s.2.2.2.1)
+  | Ctl.ret _ => none
+
+theorem APS_loop2 (slices : List GoSlice) : ∀ (rest kept : List (Int × Int)) (j fuel : Nat),
+    fuel ≥ rest.length + 1 → kept.length ≤ j →
+    (AP_S_loop2 slices fuel (kept.length : Int) ((kept.length : Int) + rest.length)
+        (kept.map (·.1) ++ rest.map (·.1)) (kept.map (·.2) ++ rest.map (·.2)) ((j : Int) - kept.length)).map ctlRv2 =
+      .ok (some ((kept ++ dropF2 slices j rest).map (·.1), (kept ++ dropF2 slices j rest).map (·.2))) := by
+  intro rest
+  induction rest with
+  | nil =>
+    intro kept j fuel hf hj
+    obtain ⟨f, rfl⟩ : ∃ f, fuel = f + 1 := ⟨fuel - 1, by omega⟩
+    rw [AP_S_loop2]
+    simp [dropF2, pure, Except.pure, Except.map, ctlRv2]
+  | cons p rest ih =>
+    intro kept j fuel hf hj
+    obtain ⟨n, st⟩ := p
+    obtain ⟨f, rfl⟩ : ∃ f, fuel = f + 1 := ⟨fuel - 1, by simp at hf; omega⟩
+    rw [AP_S_loop2]
+    have hlt : ((kept.length : Int) < (kept.length : Int) + (((n, st) :: rest).length : Nat)) := by simp; omega
+    have hgi : gidx (kept.map (·.1) ++ ((n, st) :: rest).map (·.1)) (kept.length : Int) = .ok n := by
+      have : kept.length = (kept.map (·.1)).length := by simp
+      rw [this, gidx_lt _ _ (by simp)]; simp
+    have hoff : (j : Int) - kept.length + kept.length = (j : Int) := by omega
+    simp only [hlt, decide_true, Bool.not_true, Bool.false_eq_true, if_false, hgi, bind, Except.bind, hoff]
+    have hf' : f ≥ rest.length + 1 := by simp at hf; omega
+    have keepIH := ih (kept ++ [(n, st)]) (j + 1) f hf' (by simp; omega)
+    have dropIH := ih kept (j + 1) f hf' (by omega)
+    have eK1 : ((kept.length : Int) + 1) = ((kept ++ [(n, st)]).length : Int) := by simp
+    have eK2 : ((kept.length : Int) + (((n, st) :: rest).length : Nat)) = ((kept ++ [(n, st)]).length : Int) + rest.length := by
+      simp; omega
+    have eK3 : ((j : Int) - kept.length) = ((j + 1 : Nat) : Int) - ((kept ++ [(n, st)]).length : Int) := by simp; omega
+    have eK4 : kept.map (·.1) ++ ((n, st) :: rest).map (·.1) = (kept ++ [(n, st)]).map (·.1) ++ rest.map (·.1) := by simp
+    have eK5 : kept.map (·.2) ++ ((n, st) :: rest).map (·.2) = (kept ++ [(n, st)]).map (·.2) ++ rest.map (·.2) := by simp
+    have keep : Except.map ctlRv2 (AP_S_loop2 slices f ((kept.length : Int) + 1) ((kept.length : Int) + (((n, st) :: rest).length : Nat))
+        (kept.map (·.1) ++ ((n, st) :: rest).map (·.1)) (kept.map (·.2) ++ ((n, st) :: rest).map (·.2)) ((j : Int) - kept.length)) =
+        .ok (some ((kept ++ (n, st) :: dropF2 slices (j + 1) rest).map (·.1), (kept ++ (n, st) :: dropF2 slices (j + 1) rest).map (·.2))) := by
+      rw [eK1, eK2, eK3, eK4, eK5, keepIH]; simp
+    have eD1 : ((kept.length : Int) - 1 + 1) = (kept.length : Int) := by omega
+    have eD2 : ((kept.length : Int) + (((n, st) :: rest).length : Nat) - 1) = (kept.length : Int) + rest.length := by simp; omega
+    have eD3 : ((j : Int) - kept.length + 1) = ((j + 1 : Nat) : Int) - (kept.length : Int) := by simp; omega
+    have drop : Except.map ctlRv2 (AP_S_loop2 slices f ((kept.length : Int) - 1 + 1) ((kept.length : Int) + (((n, st) :: rest).length : Nat) - 1)
+        (kept.map (·.1) ++ rest.map (·.1)) (kept.map (·.2) ++ rest.map (·.2)) ((j : Int) - kept.length + 1)) =
+        .ok (some ((kept ++ dropF2 slices (j + 1) rest).map (·.1), (kept ++ dropF2 slices (j + 1) rest).map (·.2))) := by
+      rw [eD1, eD2, eD3, dropIH]
+    have hs1 : ∀ (l1 l2 : List Int) (x : Int), l1.length = kept.length →
+        gslice (l1 ++ x :: l2) 0 (kept.length : Int) = .ok l1 := by
+      intro l1 l2 x h
+      rw [gslice_take _ _ (by simp; omega)]; simp [← h]
+    have hs2 : ∀ (l1 l2 : List Int) (x : Int), l1.length = kept.length →
+        gslice (l1 ++ x :: l2) ((kept.length : Int) + 1) (len (l1 ++ x :: l2)) = .ok l2 := by
+      intro l1 l2 x h
+      have : ((kept.length : Int) + 1) = ((kept.length + 1 : Nat) : Int) := by simp
+      rw [this, gslice_drop _ _ (by simp; omega)]; simp [← h]
+    have m1 : ((n, st) :: rest).map (·.1) = n :: rest.map (·.1) := rfl
+    have m2 : ((n, st) :: rest).map (·.2) = st :: rest.map (·.2) := rfl
+    by_cases hn : n = 1
+    · subst hn
+      by_cases hjs : j < slices.length
+      · have hle : ((j : Int) ≤ len slices - 1) := by unfold len; omega
+        simp only [hle, decide_true, Bool.and_true, BEq.rfl, if_true, gidx_lt slices j hjs]
+        cases hg : slices[j] with
+        | none =>
+          have : slices[j]?.join = none := by simp [List.getElem?_eq_getElem hjs, hg]
+          simp only [Option.isSome_none, Bool.false_eq_true, if_false]
+          rw [keep]
+          simp [dropF2, this]
+        | some sl =>
+          have : slices[j]?.join = some sl := by simp [List.getElem?_eq_getElem hjs, hg]
+          simp only [Option.isSome_some, if_true]
+          rw [m1, m2, hs1 _ _ _ (by simp), hs2 _ _ _ (by simp), hs1 _ _ _ (by simp), hs2 _ _ _ (by simp)]
+          simp only []
+          rw [drop]
+          simp [dropF2, this]
+      · have hle : ¬ ((j : Int) ≤ len slices - 1) := by unfold len; omega
+        have h2 : slices[j]? = none := List.getElem?_eq_none (by omega)
+        simp only [hle, decide_false, Bool.and_false, Bool.false_eq_true, if_false]
+        rw [keep]
+        simp [dropF2, h2]
+    · have hn' : (n == 1) = false := by simpa using hn
+      simp only [hn', Bool.false_and, Bool.false_eq_true, if_false]
+      rw [keep]
+      simp [dropF2, hn']
+end TM.Gen
+namespace TM.Gen
+open TM
+set_option linter.unusedSimpArgs false
+
+theorem apSLoop_length (isVec : Bool) (od : Nat) : ∀ (shape : List Int) (i : Nat) (strides : List Int)
+    (sls : List (Option Sl)) (rs : List AxisRes), apSLoop isVec od i shape strides sls = .ok rs → rs.length = shape.length := by
+  intro shape
+  induction shape with
+  | nil => intro i st sls rs h; simp [apSLoop] at h; cases h; rfl
+  | cons d ds ih =>
+    intro i st sls rs h
+    cases st with
+    | nil => simp [apSLoop, throwPanic] at h
+    | cons s ss =>
+      simp only [apSLoop, bind, Except.bind] at h
+      cases h1 : sliceAxis isVec od i d s sls.head?.join with
+      | error e => simp [h1] at h
+      | ok r =>
+        simp only [h1] at h
+        cases h2 : apSLoop isVec od (i + 1) ds ss sls.tail with
+        | error e => simp [h2] at h
+        | ok rs' =>
+          simp only [h2, pure, Except.pure] at h
+          injection h with h; subst h
+          simp [ih (i + 1) ss sls.tail rs' h2]
+
+/-- the model's filter over (axis result, "a slice was given") pairs is the dropping loop -/
+theorem keep_eq_dropF2 (sls : List (Option Sl)) : ∀ (rs : List AxisRes) (j K : Nat), rs.length ≤ K →
+    ((rs.zip ((sls.drop j).map Option.isSome ++ List.replicate K false)).filter
+        (fun (r, given) => !(r.n == 1 && given))).map (fun p => (p.1.n, p.1.stride)) =
+      dropF2 sls j (rs.map (fun r => (r.n, r.stride))) := by
+  intro rs
+  induction rs with
+  | nil => intro j K _; simp [dropF2]
+  | cons r rs ih =>
+    intro j K hK
+    by_cases hj : j < sls.length
+    · have hd : sls.drop j = sls[j] :: sls.drop (j + 1) := List.drop_eq_getElem_cons hj
+      have hg : (sls[j]?.join).isSome = sls[j].isSome := by simp [List.getElem?_eq_getElem hj]
+      simp only [hd, List.map_cons, List.cons_append, List.zip_cons_cons, dropF2, hg]
+      have := ih (j + 1) K (by simp at hK; omega)
+      by_cases hc : (r.n == 1 && sls[j].isSome) = true
+      · simp only [List.filter_cons, hc, Bool.not_true, Bool.false_eq_true, if_false, if_true]
+        exact this
+      · have hc' : (r.n == 1 && sls[j].isSome) = false := by simpa using hc
+        simp only [List.filter_cons, hc', Bool.not_false, if_true, List.map_cons, Bool.false_eq_true, if_false]
+        rw [this]
+    · have hd : sls.drop j = [] := List.drop_eq_nil_of_le (by omega)
+      have hd1 : sls.drop (j + 1) = [] := List.drop_eq_nil_of_le (by omega)
+      have hg : sls[j]? = none := List.getElem?_eq_none (by omega)
+      obtain ⟨K', rfl⟩ : ∃ K', K = K' + 1 := ⟨K - 1, by simp at hK; omega⟩
+      have := ih (j + 1) K' (by simp at hK; omega)
+      simp only [hd1, List.map_nil, List.nil_append] at this
+      simp only [hd, List.map_nil, List.nil_append, List.replicate_succ, List.zip_cons_cons, dropF2, hg, List.map_cons]
+      simp only [List.filter_cons, Bool.and_false, Bool.not_false, if_true, List.map_cons, Option.join_none,
+        Option.isSome_none, Bool.false_eq_true, if_false]
+      rw [this]
+end TM.Gen
+namespace TM.Gen
+open TM
+set_option linter.unusedSimpArgs false
+
+/-- outcome class of the translated `AP.S`: the new access pattern (as the model's `AP`), `ndStart`, `ndEnd` -/
+def clsAPS (r : GoM (GoAP × Int × Int × GoErr)) : Cls (AP × Int × Int) :=
+  match r with
+  | .ok (a, s, e, none) => .val (toM a, s, e)
+  | .ok (_, _, _, some _) => .err
+  | .error (.panic _) => .panic
+  | .error .fuel => .fuel
+
+theorem ctlRv2_inv (x : GoM (Ctl (GoAP × Int × Int × GoErr) (Int × Int × List Int × List Int × Int))) (v w : List Int)
+    (h : x.map ctlRv2 = .ok (some (v, w))) : ∃ d dm o, x = .ok (Ctl.next (d, dm, v, w, o)) := by
+  cases x with
+  | error e => simp [Except.map] at h
+  | ok c =>
+    cases c with
+    | ret r => simp [Except.map, ctlRv2] at h
+    | next st =>
+      obtain ⟨d, dm, a, b, o⟩ := st
+      simp [Except.map, ctlRv2] at h
+      exact ⟨d, dm, o, by rw [h.1, h.2]⟩
+
+theorem ordOf_ordStep (nc : Bool) (o : Int) (h : 0 ≤ o ∧ o < 8) :
+    ordOf (ordStep nc o) = (if nc then { ordOf o with nonContig := true } else ordOf o) := by
+  unfold ordStep; cases nc
+  · simp
+  · simp [ordOf_addNC o h]
+
+/-- the model's `AP.S` with its parts named -/
+def odOf (ap : AP) : Nat := if !ap.o.col || isVector ap.shape then 0 else ap.shape.length - 1
+
+def apsFin (o : Order) (size : Int) (sls : List (Option Sl)) (rs : List AxisRes) : AP × Int × Int :=
+  let ndStart := sumI (rs.map (·.dStart))
+  let ndEnd := size - sumI (rs.map (·.dEnd))
+  let order := if rs.any (·.nonContig) then { o with nonContig := true } else o
+  if ndEnd - ndStart == 1 then ({ shape := [], strides := [], fin := true, o := {} }, ndStart, ndEnd)
+  else
+    let keep := (rs.zip (sls.map Option.isSome ++ List.replicate rs.length false)).filter
+      (fun (r, given) => !(r.n == 1 && given))
+    let kept := keep.map (·.1)
+    ({ shape := kept.map (·.n), strides := kept.map (·.stride), fin := true, o := order }, ndStart, ndEnd)
+
+theorem APS_model_unfold (ap : AP) (size : Int) (sls : List (Option Sl)) :
+    ap.S size sls = (if sls.length > ap.shape.length then throwErr "dimMismatch" else do
+      let rs ← apSLoop (isVector ap.shape) (odOf ap) 0 ap.shape ap.strides sls
+      pure (apsFin ap.o size sls rs)) := by
+  unfold AP.S odOf apsFin
+  by_cases h : sls.length > ap.shape.length
+  · simp [h, throwErr, bind, Except.bind]
+  · simp only [h, if_false, bind, Except.bind, pure, Except.pure]
+    cases apSLoop (isVector ap.shape) (if (!ap.o.col || isVector ap.shape) = true then 0 else ap.shape.length - 1) 0
+      ap.shape ap.strides sls with
+    | error e => rfl
+    | ok rs => simp only []; split <;> rfl
+
+/-- `ap.go:AP.S` (source, translated on this run) ≡ the model's `AP.S`: same refusals and panics, same new
+    shape / strides / lock / data-order flags, same `ndStart`, `ndEnd` — for every access pattern whose flag
+    byte is a valid `DataOrder` (< 8), every window size and every slice list. -/
+theorem AP_S_eq (g : GoAP) (size : Int) (slices : List GoSlice) (ho : 0 ≤ g.o ∧ g.o < 8) :
+    clsAPS (AP_S g size slices) = clsM ((toM g).S size slices) := by
+  rw [APS_model_unfold]
+  unfold AP_S
+  by_cases hlen : slices.length > g.shape.length
+  · have h1 : (len slices > len g.shape) := by unfold len; omega
+    simp [h1, hlen, toM, clsAPS, clsM, throwErr, pure, Except.pure, bind, Except.bind]
+  · have h1 : ¬ (len slices > len g.shape) := by unfold len; omega
+    have hlen' : ¬ (slices.length > (toM g).shape.length) := hlen
+    simp only [h1, hlen', decide_false, Bool.false_eq_true, if_false, Shape_Clone_eq, AP_Dims, Shape_Dims, bind,
+      Except.bind, pure, Except.pure, IsRowMajor_eq, AP_IsVector_eq, gmake_len]
+    have hpos_or : g.shape = [] ∨ g.shape.length ≥ 1 := by
+      cases hs : g.shape with
+      | nil => left; rfl
+      | cons a b => right; simp
+    have hl := APS_loop1 g (len g.shape) ({} : GoAP) (odOf (toM g)) size slices g.shape.length 0 size 0 g.shape
+      (List.replicate g.shape.length 0) g.o (by simp) rfl (by simp) ho
+    simp only [List.drop_zero, List.take_zero, List.nil_append, Int.cast_ofNat_Int] at hl
+    have hsh : (toM g).shape = g.shape := rfl
+    have hst : (toM g).strides = g.strides := rfl
+    have hoo : (toM g).o = ordOf g.o := rfl
+    rw [hsh, hst, hoo]
+    -- the outer dimension the source computes is the model's (when there is an axis at all)
+    have hO : g.shape.length ≥ 1 → (if (!(ordOf g.o).col || isVector g.shape) = true then (0 : Int) else len g.shape - 1) =
+        ((odOf (toM g) : Nat) : Int) := by
+      intro hp
+      unfold odOf
+      rw [hsh, hoo]
+      by_cases hc : (!(ordOf g.o).col || isVector g.shape) = true
+      · simp [hc]
+      · simp [hc, len]; omega
+    rcases hpos_or with hne | hpos
+    · -- rank 0: no axis, no slice
+      have hsl : slices = [] := by
+        cases slices with
+        | nil => rfl
+        | cons a b => simp [hne] at hlen
+      subst hsl
+      simp [hne, toM, apSLoop, rangeUp, upFrom, AP_S_loop1, len, sumI, clsAPS, clsM, bind, Except.bind, pure, Except.pure,
+        AP_S_loop2, MakeAP, isVector, isColVec, isRowVec, ordOf, apsFin]
+      by_cases hs1 : size = 1
+      · have hsc := scalarAP_eq
+        simp only [bind, Except.bind] at hsc
+        cases h1 : AP_SetShape ({} : GoAP) [] with
+        | error e => rw [h1] at hsc; cases hsc
+        | ok v =>
+          rw [h1] at hsc
+          simp only [hs1, if_true, h1, hsc]
+          decide
+      · simp [hs1]
+    · have hO := hO hpos
+      cases hm : apSLoop (isVector g.shape) (odOf (toM g)) 0 g.shape g.strides slices with
+      | error er =>
+        rw [hm] at hl
+        cases er with
+        | err t =>
+          obtain ⟨a, b, c, d, hl⟩ := hl
+          rw [← hO] at hl
+          by_cases hcol : (ordOf g.o).col = true <;> by_cases hv : isVector g.shape = true <;>
+            simp only [hcol, hv, Bool.not_true, Bool.not_false, Bool.true_or, Bool.false_or, Bool.or_true, Bool.or_false,
+              if_true, if_false, Bool.false_eq_true, rangeUp_zero_len, Bool.not_eq_true] at hl ⊢ <;>
+            simp [hl, bind, Except.bind, clsAPS, clsM]
+        | panic t =>
+          obtain ⟨m, hl⟩ := hl
+          rw [← hO] at hl
+          by_cases hcol : (ordOf g.o).col = true <;> by_cases hv : isVector g.shape = true <;>
+            simp only [hcol, hv, Bool.not_true, Bool.not_false, Bool.true_or, Bool.false_or, Bool.or_true, Bool.or_false,
+              if_true, if_false, Bool.false_eq_true, rangeUp_zero_len, Bool.not_eq_true] at hl ⊢ <;>
+            simp [hl, bind, Except.bind, clsAPS, clsM]
+      | ok rs =>
+        rw [hm] at hl
+        rw [← hO] at hl
+        have hrl := apSLoop_length _ _ _ _ _ _ _ hm
+        have hl2 := APS_loop2 slices (rs.map (fun r => (r.n, r.stride))) [] 0 ((len g.shape - 0).toNat + 2)
+          (by simp [len, hrl]) (by simp)
+        simp only [List.length_nil, List.map_nil, List.nil_append, List.length_map, List.map_map, hrl] at hl2
+        have e1 : (((0 : Nat) : Int) + (g.shape.length : Int)) = len g.shape := by simp [len]
+        have e2 : (((0 : Nat) : Int) - ((0 : Nat) : Int)) = 0 := by simp
+        have e3 : (((0 : Nat)) : Int) = 0 := rfl
+        have f1 : ((fun x : Int × Int => x.1) ∘ fun r : AxisRes => (r.n, r.stride)) = fun r => r.n := rfl
+        have f2 : ((fun x : Int × Int => x.2) ∘ fun r : AxisRes => (r.n, r.stride)) = fun r => r.stride := rfl
+        rw [e1, e2, e3, f1, f2] at hl2
+        obtain ⟨d, dm, o, hx⟩ := ctlRv2_inv _ _ _ hl2
+        have hk := keep_eq_dropF2 slices rs 0 rs.length (Nat.le_refl _)
+        simp only [List.drop_zero] at hk
+        have hsc2 := scalarAP_eq
+        simp only [bind, Except.bind] at hsc2
+        by_cases hcol : (ordOf g.o).col = true <;> by_cases hv : isVector g.shape = true <;>
+          simp only [hcol, hv, Bool.not_true, Bool.not_false, Bool.true_or, Bool.false_or, Bool.or_true, Bool.or_false,
+            if_true, if_false, Bool.false_eq_true, rangeUp_zero_len, Bool.not_eq_true] at hl ⊢ <;>
+          simp only [hl, bind, Except.bind, pure, Except.pure, Int.zero_add] <;>
+          (by_cases hsc : (size - sumI (rs.map (·.dEnd)) - sumI (rs.map (·.dStart)) == 1) = true
+           · cases h1s : AP_SetShape ({} : GoAP) [] with
+             | error e => rw [h1s] at hsc2; cases hsc2
+             | ok v =>
+               rw [h1s] at hsc2
+               simp only [hsc, if_true, h1s, hsc2]
+               simp [clsAPS, clsM, toM, apsFin, hsc]
+               decide
+           · have hsc' : (size - sumI (rs.map (·.dEnd)) - sumI (rs.map (·.dStart)) == 1) = false := by simpa using hsc
+             simp only [hsc', Bool.false_eq_true, if_false, hx, MakeAP, pure, Except.pure]
+             simp [clsAPS, clsM, toM, apsFin, hsc', ← hk, List.map_map, ordOf_ordStep _ _ ho])
+end TM.Gen
+
+namespace TM.Gen
+open TM
+
+/-- the model's access pattern as the Go struct (flag byte from the three booleans; `Triangle` = 0) -/
+def bitsOf (o : Order) : Int := (if o.col then 1 else 0) + (if o.nonContig then 2 else 0) + (if o.transposed then 4 else 0)
+def ofM (ap : AP) : GoAP := { shape := ap.shape, strides := ap.strides, fin := ap.fin, o := bitsOf ap.o, tri := 0 }
+
+theorem bitsOf_range (o : Order) : 0 ≤ bitsOf o ∧ bitsOf o < 8 := by
+  obtain ⟨a, b, c⟩ := o
+  cases a <;> cases b <;> cases c <;> decide
+
+theorem ordOf_bitsOf (o : Order) : ordOf (bitsOf o) = o := by
+  obtain ⟨a, b, c⟩ := o
+  cases a <;> cases b <;> cases c <;> decide
+
+theorem toM_ofM (ap : AP) : toM (ofM ap) = ap := by
+  obtain ⟨sh, st, f, o⟩ := ap
+  simp [toM, ofM, ordOf_bitsOf]
+
+/-- `AP.S` (source) on the Go image of any model access pattern ≡ the model's `AP.S` on it -/
+theorem AP_S_eq_ofM (ap : AP) (size : Int) (sls : List (Option Sl)) :
+    clsAPS (AP_S (ofM ap) size sls) = clsM (ap.S size sls) := by
+  have := AP_S_eq (ofM ap) size sls (bitsOf_range ap.o)
+  rwa [toM_ofM] at this
+
+end TM.Gen
